@@ -30,7 +30,8 @@ RULE = ('a case = a sequence of 1-4 mapping documents over the priority / !del /
         'distinct = distinct digest of (documents, history, perturbation plan)')
 ASSUMPTIONS = [
     'explicit !del is generated on non-empty containers only: an explicit !del on a value-less, empty or falsy node is the intentional remove-this-key idiom, which the statement excludes from idempotence',
-    'documents contain no dynamic nodes: evaluated config == merged data, so !unsafe markers cannot change the outcome by refusing evaluation',
+    'the documents the laws are checked on contain no dynamic nodes: evaluated config == merged data, so !unsafe markers cannot change the outcome by refusing evaluation; '
+    'the determinism variants (history, thread, perturbation, other interpreters) of a seeded third of the scenarios build one more document holding a !call / !bind whose arguments are given by position (with and without gaps) and by name',
     'hash-seed variation re-executes the interpreter (PYTHONHASHSEED must be set before start); it is done for a seeded quarter of the scenarios',
 ]
 TIERS = {
@@ -104,9 +105,25 @@ def _gen_history(r):
     return out
 
 
+def _gen_dyn(r):
+    """One more document for the determinism variants only (the laws are about data): a call whose arguments are given by
+    position - contiguous or with gaps -, by name, or both."""
+    idxs = sorted(r.sample(range(4), r.randrange(1, 4)))
+    items = [f'{i}: "pos{i}"' for i in idxs]
+    if r.random() < 0.5:
+        items.append('extra_kw: 5')
+    r.shuffle(items)
+    kind = r.choice(['!call', '!call', '!bind'])
+    return m([['dynamic_entry', raw(f'{kind}:simrec.positional {{' + ', '.join(items) + '}')]])
+
+
+def _det_docs(sc):
+    return sc['docs'] + ([sc['dyn']] if sc.get('dyn') else [])
+
+
 def generate(r, tier, index):
     docs = _gen_docs(r)
-    return {'docs': docs, 'history': _gen_history(r),
+    return {'docs': docs, 'history': _gen_history(r), 'dyn': _gen_dyn(r) if r.random() < 0.35 else None,
             'perturb': {'every': r.choice([100, 400, 2000]), 'seed': r.getrandbits(30), 'gc': r.choice(['default', 'default', 'disabled', 'aggressive']),
                         'collect': r.random() < 0.6},
             'hashseeds': [1, r.randrange(2, 4000000)] if r.random() < 0.25 else [],
@@ -172,10 +189,11 @@ def _variant_child(sc, mode):
     import threading
     fs = simfs.SimFS({}, cwd='/w').install()
     recorder.install()
-    docs, route = sc['docs'], sc['route']
+    docs, route = _det_docs(sc), sc['route']
     res = {'mode': mode}
     if mode == 'reference':
         res['builds'] = [build_observe(docs, route, fs)]
+        res['builds'].append(build_observe(sc['docs'], route, fs) if sc.get('dyn') else res['builds'][0])    # what the laws compare with
         return res
     if mode == 'history_twice':
         res['history'] = _run_history(sc['history'])
@@ -385,8 +403,10 @@ def execute(sc):
         return c['value']
 
     try:
-        ref = child('reference')['builds'][0]
+        ref, ref_laws = child('reference')['builds']
         count(oc, 'reference:' + ref['status'])
+        if sc.get('dyn'):
+            count(pr, 'call_with_positional_arguments')
         nontrivial = False
         docs = sc['docs']
         if len(docs) >= 2:
@@ -424,7 +444,7 @@ def execute(sc):
         if not res['violations'] and (not focus or focus == 'determinism.hashseed'):
             for hi, hs in enumerate(sc['hashseeds']):
                 # the second re-executed interpreter also runs with -O: results must not depend on interpreter flags either
-                hb = hashseed_digest(sc['docs'], sc['route'], hs, optimise=(hi == 1))
+                hb = hashseed_digest(_det_docs(sc), sc['route'], hs, optimise=(hi == 1))
                 count(pr, 'hashseed_builds')
                 if hi == 1:
                     count(pr, 'interpreter_with_-O')
@@ -433,6 +453,7 @@ def execute(sc):
                     res['violations'].append(core.violation('determinism.hashseed', f'PYTHONHASHSEED={hs}: result differs from the pristine build in {diff[0]}: {json.dumps(diff[1])[:400]} vs {json.dumps(diff[2])[:400]}', what=diff[0]))
                     break
         # relational laws
+        ref = ref_laws
         if not res['violations'] and ref['status'] == 'ok' and (not focus or focus.startswith('law')):
             rel = related(sc)
             c = core.fork_call(_law_child, (sc, [v for _, v, _ in rel]), timeout=60)
@@ -462,7 +483,7 @@ def execute(sc):
         res['harness'] = str(e)
         return res
     res['sample'] = {'documents': [emit.emit(d) for d in sc['docs']], 'route': sc['route'], 'prior_history': [h['kind'] for h in sc['history']],
-                     'perturbation': sc['perturb'], 'hashseeds': sc['hashseeds'], 'reference': {'status': ref['status'], 'cfg': ref.get('cfg')}}
+                     'perturbation': sc['perturb'], 'hashseeds': sc['hashseeds'], 'extra_document_for_determinism_variants': emit.emit(sc['dyn']) if sc.get('dyn') else None, 'reference': {'status': ref['status'], 'cfg': ref.get('cfg')}}
     return res
 
 
@@ -475,6 +496,10 @@ def shrink(sc):
     if sc['hashseeds']:
         c = copy.deepcopy(sc)
         c['hashseeds'] = []
+        yield c
+    if sc.get('dyn'):
+        c = copy.deepcopy(sc)
+        c['dyn'] = None
         yield c
     if sc['route'] != 'text':
         c = copy.deepcopy(sc)
